@@ -66,6 +66,7 @@ fn abs(apex: &MName, rel: &[Vec<u8>]) -> MName {
 fn target(apex: &MName, t: &Target) -> MName {
     match t {
         Target::In(rel, mask) => flip_case(&abs(apex, rel), *mask),
+        Target::Outside(labels) if labels.is_empty() => MName::root(),
         Target::Outside(labels) => {
             let n = MName { labels: labels.clone() };
             if n.at_or_below(apex) {
@@ -243,6 +244,8 @@ fn tgt() -> impl Strategy<Value = Target> {
     prop_oneof![
         8 => (rel(), prop_oneof![3 => Just(0u64), 1 => any::<u64>()]).prop_map(|(r, m)| Target::In(r, m)),
         1 => prop::collection::vec(label(), 1..3).prop_map(Target::Outside),
+        // the root name as a target ("null MX", RFC 7505; NS/CNAME pointing at the root)
+        1 => Just(Target::Outside(Vec::new())),
     ]
 }
 
@@ -252,7 +255,7 @@ fn case_strategy() -> impl Strategy<Value = Case> {
         5 => any::<u8>().prop_map(Rec::A),
         2 => any::<u8>().prop_map(Rec::Aaaa),
         2 => tgt().prop_map(Rec::Cname),
-        2 => (any::<u8>(), tgt()).prop_map(|(p, t)| Rec::Mx(p, t)),
+        2 => (prop_oneof![1 => Just(0u8), 3 => any::<u8>()], tgt()).prop_map(|(p, t)| Rec::Mx(p, t)),
         1 => any::<u8>().prop_map(Rec::Txt),
     ];
     let apex_rec = prop_oneof![3 => any::<u8>().prop_map(Rec::Soa), 3 => tgt().prop_map(Rec::Ns), 1 => any::<u8>().prop_map(Rec::A)];
